@@ -40,7 +40,10 @@ func (n *MixedValueNode) AddConstraint(c constraint.Constraint) {
 	switch t := c.(type) {
 	case *constraint.TypeConstraint:
 		n.addTypeConstraint(t)
-		n.types = []string{t.Bytes().String()}
+		if len(n.types) == 0 || t.Bytes().Unquote().String() != "mixed" {
+			// `@a | @b // {type: "mixed"}` keeps the alternatives it lists.
+			n.types = []string{t.Bytes().String()}
+		}
 
 	case *constraint.Or:
 		n.addOrConstraint(t)
